@@ -50,9 +50,10 @@ Definition messages_value (msgs:list (Z*Z)) : value := VTrace (VArr (map (fun d 
 (* the loop body gets as far as frame.next(): runtime.cpp:85-140 *)
 Definition ready (r:rt) (c:context) : Prop :=
   r_exit_req r = false /\ cur r = Some c /\ c_suspended c = false /\ c_frames c <> [] /\ r_state r = StRunning.
-(* frame.next() did not finish the frame (runtime.cpp:151): an instruction is fetched *)
+(* frame.next() did not finish the frame (runtime.cpp:151) and did not report a restarted scope
+   without instructions: an instruction is fetched *)
 Definition fetches (fr:fres) (c c1:context) : Prop :=
-  fr = FOk \/ length (c_frames c1) <> length (c_frames c).
+  fr = FOk \/ (fr = FDone /\ length (c_frames c1) <> length (c_frames c)).
 (* frame completion, runtime.cpp:151-172 *)
 Definition complete_frame (r:rt) (c1:context) : context :=
   let popped := pop_value c1 in
@@ -91,7 +92,15 @@ Inductive pass (r:rt) : iter -> Prop :=
     fetches fr c c1 -> current_instr c1 = Some i -> deadline_test r1 = (false, r2) ->
     exec_instr i r2 c1 = Ok (r3, c5) -> r_err (upd_cur r3 c5) = true ->
     on_error (upd_cur r3 c5) = Ok (b, r5) ->
-    pass r (if b then Executed r5 else Return RRuntimeError r5).
+    pass r (if b then Executed r5 else Return RRuntimeError r5)
+(* frame.next() restarted a scope that has no instructions (an empty loop body went round once): nothing
+   is executed, the deadline is tested and the round counts against the slice; the messages stay *)
+| PRestartExpired c r1 c1 r2 : ready r c -> frame_next frame_fuel r c = Ok (FRestarted, r1, c1) -> r_err r1 = false ->
+    deadline_test r1 = (true, r2) ->
+    pass r (Return RRuntimeError (expired_machine r2 c1))
+| PRestarted c r1 c1 r2 : ready r c -> frame_next frame_fuel r c = Ok (FRestarted, r1, c1) -> r_err r1 = false ->
+    deadline_test r1 = (false, r2) ->
+    pass r (Executed (upd_cur r2 c1)).
 
 (* the machine at the moment a pass notices the raised flag: after frame.next() (runtime.cpp:142) or
    after the instruction (runtime.cpp:289) *)
